@@ -87,7 +87,7 @@ Section V2.
 
   (* one request: ResolveUnion initialises the visited set with the requested node when the node
      is cyclic, otherwise there is none *)
-  Definition request (fuel : nat) (n : N) (c : ecache) : option (bool * ecache) :=
+  Definition v2_request (fuel : nat) (n : N) (c : ecache) : option (bool * ecache) :=
     match eval fuel n (if cyc n then Some [n] else None) c with
     | None => None
     | Some (b, _, c') => Some (b, c')
@@ -97,7 +97,7 @@ Section V2.
     match reqs with
     | [] => Some []
     | n :: reqs' =>
-        match request fuel n c with
+        match v2_request fuel n c with
         | None => None
         | Some (b, c') =>
             match v2_run fuel reqs' c' with
